@@ -23,7 +23,7 @@ def main(tier, seed):
                           extra_cov={"translator_database_getters": {"source": "tinyflux/database.py: TinyFlux.__len__, get_measurements, get_field_keys, get_tag_keys, get_field_values, get_timestamps, get_tag_values -> coq/gen/DbGetGen.v "
                                                                                "(compiled on this run by harness/py2coq_dbget.py; both paths; the read_op decorator checked and applied as DbSem.db_prelude)",
                                                                      "refused": refused, "equivalence_theorem": "source_db_len, source_db_get_measurements / _field_keys / _tag_keys / _field_values / _timestamps (C07_source_db_*_exact); "
-                                                                                                                "get_tag_values: translated, its theorem not yet proved"},
+                                                                                                                "source_db_get_tag_values (C07_source_db_tag_values_exact)"},
                                      "translator_index_getters": {"source": "tinyflux/index.py: Index.__len__, valid, get_measurements, get_field_keys, get_tag_keys, get_timestamps, get_field_values, get_tag_values (and the maintenance methods) -> "
                                                                             "coq/gen/IndexGen.v (compiled on this run by harness/py2coq_index.py)",
                                                                   "refused": refused, "equivalence_theorem": "gen_len_eq, gen_valid_eq, gen_get_measurements_eq, gen_get_timestamps_eq, gen_get_field_values_eq, gen_get_field_keys_eq, gen_get_tag_keys_eq, gen_get_tag_values_eq (C07_source_index_*)"}})
